@@ -78,7 +78,7 @@ PROPERTY_META = {
                    'deviations: every solution vertex on the manifold.',
         level_note=LPE_NOTE + ' Constraint Jacobians are written to stay finite at their singular points.'),
     'C15': dict(
-        deadline_quick=300, deadline_thorough=1500, engine='E3-LPE', design_ref='5/C15',
+        deadline_quick=480, deadline_thorough=1500, engine='E3-LPE', design_ref='5/C15',
         technique='exhaustive lattice products on the real ProlateHyperspheroid (directions, affinity, determinant, measure); full products and deviation-bounded streams of oracle answers for every informed-sampler call',
         level_text='Hyperspheroid in dimensions 2-5(6) x separations x orientations x cost factors from 1+1e-9 to 100: lattice directions through the real RNG entry point land on the focal-sum surface, '
                    'transform is affine with |det| = product of semi-axes, measures equal the closed form (=> uniform push-forward). Direct, rejection and ordered (batches of 3, four calls with a shrinking bound) samplers on R^2,R^3,R^4,SE(2),SE(3) with '
@@ -99,7 +99,7 @@ PROPERTY_META = {
                    'cost sequences of length <= 5-6 with windows 1-3 and two thresholds.',
         level_note='Trusted: the reference models, the clock_gettime interposition. Sequential part only in this harness; terminate() from another thread and the periodic evaluation thread are explored in C19\'s schedule explorer.'),
     'C17': dict(
-        deadline_quick=420, deadline_thorough=1700, engine='E1-DBE', design_ref='5/C17',
+        deadline_quick=560, deadline_thorough=1700, engine='E1-DBE', design_ref='5/C17',
         technique='exhaustive enumeration of all short valid waypoint paths x routines x parameters x deviation-bounded answer streams of the routines\' random draws; exhaustive counts for densification; all small sets for hybridization',
         level_text='4 worlds: every sequence of 2..4 (thorough 5) waypoints with valid segments (repeated states, zero-length segments) through reduceVertices, partial/rope shortcut, '
                    'collapseCloseVertices, smoothBSpline, perturbPath, findBetterGoal, simplify, simplifyMax under 3-5 parameter settings (path length and a linear cost-field objective for the cost-aware routines) and every answer stream with <= D deviations among the first '
@@ -121,7 +121,7 @@ PROPERTY_META = {
                    'each point in 5 processes differing in ASLR, heap offset and fresh-heap byte pattern; results must be identical.',
         level_note='Trusted: fork/exec isolation, the observation hash (status, flags, solution path bits). The seed, problem and budget quantifiers are finite sets; layouts are 5 environments, not all.'),
     'C04': dict(
-        deadline_quick=420, deadline_thorough=1700, engine='E1-DBE', design_ref='5/C04',
+        deadline_quick=560, deadline_thorough=1700, engine='E1-DBE', design_ref='5/C04',
         technique='exhaustive enumeration of all short insertion histories into the real ProblemDefinition; deviation-bounded exploration of optimizing planners x objectives x thresholds with continued solves and query-switch histories; PRM / PRM* (always two threads) under ALL thread schedules with <= P preemptions (E4 schedule explorer)',
         level_text='(a) every insertion history of <= 4 (thorough 5) solutions over 12-16 solution kinds into a real ProblemDefinition, checked after each insertion against a reference order and all '
                    'accessor functions. (b) 17 optimizing planners (+2 non-optimizing representatives) x 5 objectives (length, state-cost integral, mechanical work, max-min clearance, weighted multi) x '
@@ -142,7 +142,7 @@ PROPERTY_META = {
         level_note=DBE_NOTE + ' Crashing or hanging histories run in forked children, are re-run alone with 10x the time limit, and are reported with their history. Threaded planners: trusted libvsrt, '
                    'sequential consistency, no leak accounting there.'),
     'C01': dict(
-        deadline_quick=420, deadline_thorough=1700, engine='E1-DBE', design_ref='5/C01',
+        deadline_quick=560, deadline_thorough=1700, engine='E1-DBE', design_ref='5/C01',
         technique='deviation-bounded exhaustive exploration of every random answer and state sample of the real planners (choice oracle), independent dense path oracle on every execution; the always-multi-threaded planners (PRM, PRM*, SPARS, SPARStwo) under ALL thread schedules with <= P preemptions (E4 schedule explorer) with the same oracle',
         level_text='37 single-threaded geometric and multilevel planners (incl. QRRT, QRRT*, QMP, QMP* with the level sequence R^2 <- SE(2) on SE(2) problems; reduced configuration set for these in the quick tier), 19 option variants of them (r-disc / no delayed collision checking / pruning / rejection sampling / intermediate states / JIT sampling ... : the non-default branches of solve()) and VFRRT, TSRRT, XXL x 16+ configurations (incl. three start states, the first invalid; a coarse default projection whose cells straddle obstacle boundaries for the projection-based planners) (9 maps incl. corner-cut diagonal, U-trap, corridor, enclosed goal, obstacle on start/goal; R^2, SE(2), Dubins, '
                    'Reeds-Shepp; goal state/states/unsampleable region; thresholds, ranges, resolutions): every execution with <= D deviations among the first N choice points plus the full '
@@ -187,7 +187,7 @@ PROPERTY_META = {
         level_note='Trusted: the recording validity checker (matches queried states bitwise to harness-computed interpolation points), g++/ASan build of libompl. '
                    'Exhaustive in the validity predicate for each n; pairs and spaces are a finite alphabet; silent for n above the bound.'),
     'C10': dict(
-        deadline_quick=420, deadline_thorough=1500, engine='E2-HBFS', design_ref='5/C10',
+        deadline_quick=520, deadline_thorough=1500, engine='E2-HBFS', design_ref='5/C10',
         technique='explicit-state BFS over op histories of the real GNAT/GNATNoThreadSafety/Linear/SqrtApprox with canonical tree states; brute-force oracle on every query in every state',
         level_text='All histories of add / add(copy of a held element) / add(vector) / remove(present) / remove(absent) / clear up to the depth bound (deduplicated on the full private tree) '
                    'for 8 GNAT parameterisations x 2 variants x 3 metrics with ties, duplicates and far clusters; the k-centers pivot draw and the '
